@@ -12,6 +12,9 @@ import (
 	"math/rand"
 	"os"
 	"sort"
+	"strconv"
+	"sync"
+	"time"
 
 	_ "github.com/buzzfeed/sso/internal/pkg/logging"
 	"github.com/sirupsen/logrus"
@@ -19,8 +22,10 @@ import (
 
 // Emitter writes one JSON object per line.
 type Emitter struct {
-	w *bufio.Writer
-	n int
+	w    *bufio.Writer
+	n    int
+	mu   sync.Mutex
+	last time.Time
 }
 
 func (e *Emitter) Emit(v interface{}) {
@@ -28,9 +33,30 @@ func (e *Emitter) Emit(v interface{}) {
 	if err != nil {
 		panic(err)
 	}
+	e.mu.Lock()
 	e.w.Write(b)
 	e.w.WriteByte('\n')
 	e.n++
+	e.last = time.Now()
+	e.mu.Unlock()
+}
+
+// watchdog: an engine that emits nothing for `limit` is stuck inside the implementation (a caller that never
+// returns, a lock never released). The trace so far is flushed, a final record names the case that did not
+// complete, and the process exits 3 so that the check reports it instead of waiting for ever.
+func (e *Emitter) watchdog(engine string, seed int64, limit time.Duration) {
+	for {
+		time.Sleep(limit / 10)
+		e.mu.Lock()
+		if time.Since(e.last) > limit {
+			b, _ := json.Marshal(M{"e": "stuck", "engine": engine, "seed": seed, "case": e.n, "limitSeconds": limit.Seconds()})
+			e.w.Write(b)
+			e.w.WriteByte('\n')
+			e.w.Flush()
+			os.Exit(3)
+		}
+		e.mu.Unlock()
+	}
 }
 
 type M = map[string]interface{}
@@ -86,7 +112,14 @@ func main() {
 		}
 		defer f.Close()
 	}
-	em := &Emitter{w: bufio.NewWriterSize(f, 1<<20)}
+	em := &Emitter{w: bufio.NewWriterSize(f, 1<<20), last: time.Now()}
+	lim := 90 * time.Second
+	if v := os.Getenv("VERIF_STUCK_SECONDS"); v != "" {
+		if k, err := strconv.Atoi(v); err == nil && k > 0 {
+			lim = time.Duration(k) * time.Second
+		}
+	}
+	go em.watchdog(flag.Arg(0), *seed, lim)
 	var rp []byte
 	if *replay != "" {
 		var err error
